@@ -661,6 +661,23 @@ async def c14_executor(w):
             "expected": {"value": "returned ('value', 7)", "exc-object": "returned the ValueError instance", "raise": "raised KeyError"}}
 
 
+async def c04_notify_var_get(w):
+    """State.notify_var_get on the real class: every undefined 2-, 3- and 4-part name an expression mentions is bound to None
+    (so `pyscript.v.old.attr` in a trigger expression evaluates instead of raising when another entity changed)."""
+    from custom_components.pyscript.state import State
+    hass = await boot()
+    hass.states.get = lambda name: None
+    State.notify_var_last.clear()
+    names = ["d.e", "d.e.attr", "d.e.old", "d.e.old.attr"]
+    got = {}
+    for n in names:     # one name per call: a name's binding must not depend on which other names are asked for
+        got.update(State.notify_var_get({n}, {"x.y": "1"}))
+    await shutdown()
+    missing = [n for n in names if n not in got or got[n] is not None]
+    return {"reproduced": bool(missing) or got.get("x.y") != "1", "observed": {"result": {k: repr(v) for k, v in got.items()}, "not bound to None": missing},
+            "expected": "each of the four names bound to None, the event's own value kept"}
+
+
 async def c12_outgoing(w):
     """service.call / domain.service() with control-keyword look-alikes; data delivered must equal the given kwargs
     minus control keywords of the recognised type."""
@@ -1840,12 +1857,31 @@ PROGRAMS_C03 = [
 ]
 
 
+PROGRAMS_C02 = [
+    # containers changed by the loop that walks them: Python's for statement asks the live container for the next element
+    ("for-worklist-grows", "todo = [1]\nseen = []\nfor x in todo:\n    seen.append(x)\n    if x < 4:\n        todo.append(x + 1)\nelse:\n    seen.append('else')\nr = seen\n"),
+    ("for-worklist-break", "todo = [1]\nr = 'no'\nfor x in todo:\n    if x == 3:\n        r = 'found'\n        break\n    todo.append(x + 1)\nelse:\n    r = 'else'\n"),
+    ("for-remove-current", "a = [1, 2, 3, 4, 5]\nseen = []\nfor x in a:\n    seen.append(x)\n    a.remove(x)\nr = [seen, a]\n"),
+    ("for-dict-grows", "d = {1: 1}\nr = []\ntry:\n    for k in d:\n        d[k + 1] = 1\n    else:\n        r.append('else')\nexcept RuntimeError:\n    r.append('RuntimeError')\nelse:\n    r.append('try-else')\nfinally:\n    r.append('finally')\n"),
+    ("for-set-grows", "s = {1}\nr = 'none'\ntry:\n    for k in s:\n        s.add(k + 100)\nexcept RuntimeError:\n    r = 'RuntimeError'\n"),
+    ("for-list-cleared", "a = [1, 2, 3]\nn = 0\nfor x in a:\n    n += 1\n    a.clear()\nr = n\n"),
+    ("for-over-iterator-shared", "it = iter([1, 2, 3, 4])\nr = []\nfor x in it:\n    r.append(x)\n    next(it, None)\n"),
+    ("with-exit-sees-loop-error", "class M:\n    def __init__(self):\n        self.got = None\n    def __enter__(self):\n        return self\n    def __exit__(self, t, v, tb):\n        self.got = t.__name__ if t else None\n        return True\nm = M()\nd = {1: 1}\nwith m:\n    for k in d:\n        d[k + 1] = 1\nr = m.got\n"),
+    ("while-else-continue-finally", "r = []\ni = 0\nwhile i < 3:\n    i += 1\n    try:\n        if i == 2:\n            continue\n        r.append(i)\n    finally:\n        r.append('f')\nelse:\n    r.append('else')\n"),
+    ("nested-break-inner-only", "r = []\nfor i in [1, 2]:\n    for j in [1, 2, 3]:\n        if j == 2:\n            break\n        r.append((i, j))\n    else:\n        r.append('inner-else')\nelse:\n    r.append('outer-else')\n"),
+    ("return-in-finally-overrides", "def f():\n    try:\n        raise ValueError('x')\n    finally:\n        return 'finally'\nr = f()\n"),
+    ("reraise-bare-in-nested-handler", "r = []\ntry:\n    try:\n        raise KeyError('k')\n    except KeyError:\n        try:\n            raise ValueError('v')\n        except ValueError:\n            pass\n        raise\nexcept KeyError as e:\n    r.append('KeyError')\n"),
+]
+
+
 async def c03_programs_bounded(w):
     """Bounded stand-in for closures / classes / decorators / recursion / scoping: fixed multi-function programs run
     by the real interpreter and by CPython; the value of `r` must agree."""
     await boot_full()
     failures = []
-    for label, src in PROGRAMS_C03:
+    which = w.get("set", "C03")
+    programs = PROGRAMS_C02 if which == "C02" else PROGRAMS_C03
+    for label, src in programs:
         g = {"pyscript_compile": lambda f: f}
         err = None
         try:
@@ -1858,8 +1894,9 @@ async def c03_programs_bounded(w):
         if cpy != pys:
             failures.append({"signature": "program:" + label, "source": src, "cpython": cpy, "pyscript": pys})
     await shutdown()
-    return {"unit": "closures / classes / decorators / scoping", "method": "fixed multi-function programs vs CPython",
-            "bound": f"{len(PROGRAMS_C03)} programs (nesting depth <= 3)", "cases": len(PROGRAMS_C03), "failures": failures,
+    unit = "loops over containers the body changes, nested exits" if which == "C02" else "closures / classes / decorators / scoping"
+    return {"unit": unit, "method": "fixed programs vs CPython",
+            "bound": f"{len(programs)} programs (nesting depth <= 3)", "cases": len(programs), "failures": failures,
             "reproduced": bool(failures)}
 
 
